@@ -93,6 +93,74 @@ theorem C18_update_accepted (del : Bool) (cur : Option Int) (tpls : Nat) (expect
 theorem C18_rolling (r u : Int) : skipped r u = true ↔ r ≠ u := by
   simp [skipped, Gen.K8s.rollingSkip]
 
+/-- one call, whatever the manager remembers: a rolling StatefulSet gets no manager and loses its stamp -/
+theorem C18_rolling_step (stamp : Option Int) (now : Int) (s : StsStatus) (h : s.replicas ≠ s.updated) :
+    replicasStep stamp now s = (none, false) := by
+  unfold replicasStep
+  simp [Gen.K8s.rollingSkip, h]
+
+/-- one call: a manager is returned exactly when the StatefulSet is settled and either every replica
+    is ready or the "not ready since" stamp (taken now if there was none) is at least 120 s old -/
+theorem C18_coordinated_iff (stamp : Option Int) (now : Int) (s : StsStatus) :
+    (replicasStep stamp now s).2 = true ↔
+      s.replicas = s.updated ∧ (s.ready = s.replicas ∨ ∃ t, stamp = some t ∧ 120 ≤ now - t) := by
+  unfold replicasStep
+  by_cases h : s.replicas = s.updated
+  · by_cases hr : s.ready = s.replicas
+    · simp [Gen.K8s.rollingSkip, Gen.K8s.stampSet, Gen.K8s.stillWaiting, h, hr]
+    · have hr' : ¬ s.ready = s.updated := by rw [← h]; exact hr
+      cases stamp with
+      | none => simp [Gen.K8s.rollingSkip, Gen.K8s.stampSet, Gen.K8s.stillWaiting, h, hr']
+      | some t =>
+        simp only [Gen.K8s.rollingSkip, Gen.K8s.stampSet, Gen.K8s.stillWaiting, h, hr', Option.isNone_some,
+          Option.getD_some, decide_false, decide_true, Bool.not_false, Bool.not_true, Bool.and_false, Bool.true_and,
+          Bool.false_eq_true, if_false, ne_eq, not_true_eq_false, false_or, true_and, Option.some.injEq, exists_eq_left']
+        by_cases hw : now - t < 120
+        · simp [hw]
+        · simp [hw]; omega
+  · simp [Gen.K8s.rollingSkip, h]
+
+/-- the answers of a history are one per call -/
+theorem replicasRun_length (stamp : Option Int) (calls : List (Int × StsStatus)) :
+    (replicasRun stamp calls).length = calls.length := by
+  induction calls generalizing stamp with
+  | nil => rfl
+  | cons c rest ih => obtain ⟨now, s⟩ := c; simp [replicasRun, ih]
+
+/-- **C18 (rolling update, every history)**: whatever one manager has seen before — any sequence of
+    statuses at any times, any remembered stamp — a StatefulSet whose rolling update is in
+    progress is not coordinated, and a settled one with every replica ready is: the monitored
+    predicate `Spec.C18.rollingHistory` holds of the answers of every history. -/
+theorem C18_rolling_history (stamp : Option Int) (calls : List (Int × StsStatus)) :
+    Spec.C18.rollingHistory calls (replicasRun stamp calls) = true := by
+  unfold Spec.C18.rollingHistory
+  rw [replicasRun_length]
+  simp only [beq_self_eq_true, Bool.true_and]
+  induction calls generalizing stamp with
+  | nil => rfl
+  | cons c rest ih =>
+    obtain ⟨now, s⟩ := c
+    simp only [replicasRun, List.zip_cons_cons, List.all_cons, Bool.and_eq_true]
+    refine ⟨⟨?_, ?_⟩, ih _⟩
+    · by_cases h : s.replicas = s.updated
+      · simp [h]
+      · rw [C18_rolling_step stamp now s h]; simp
+    · by_cases h : s.replicas = s.updated ∧ s.ready = s.replicas
+      · have : (replicasStep stamp now s).2 = true := (C18_coordinated_iff stamp now s).mpr ⟨h.1, Or.inl h.2⟩
+        rw [this]; simp
+      · have : (s.replicas == s.updated && s.ready == s.replicas) = false := by
+          cases hb : (s.replicas == s.updated && s.ready == s.replicas) with
+          | false => rfl
+          | true =>
+            simp only [Bool.and_eq_true, beq_iff_eq] at hb
+            exact absurd hb h
+        rw [this]; simp
+
+/-- non-vacuity: settled but not ready (stamp taken), three minutes later rolling and still not ready
+    (no manager — the case seed C18-f got wrong), then settled and not ready again (stamp is new) -/
+example : replicasRun none [(0, ⟨3, 3, 2⟩), (180, ⟨3, 1, 2⟩), (360, ⟨3, 3, 2⟩), (540, ⟨3, 3, 2⟩)] =
+    [false, false, false, true] := by decide
+
 theorem find_unique {pods : List Pod} {p : Pod} {i : Nat}
     (hm : p ∈ pods) (ho : p.ord = some i)
     (hu : ∀ q ∈ pods, q.ord = some i → q = p) : lookup pods i = some p := by
